@@ -30,13 +30,16 @@ def runDecoder (d : Decoder) (script : Bytes) (pc : Nat) (verifyMinimal : Bool) 
     else if verifyMinimal && constValues.contains data then .error nonMinimal
     else .ok (pc + size, some data)
   | .variable lenSize sizedValues minSize =>
-    -- dec_f: pc += 1; struct.unpack(fmt, script[pc:pc+n]) failing => (0, pc) else (size, pc + n)
+    -- dec_f: pc += 1; struct.unpack(fmt, script[pc:pc+n]) failing => (None, pc) else (size, pc + n);
+    -- `if size is None: return pc + 1, None`
     let pc := pc + 1
     let lenBytes := slice script pc (pc + lenSize)
-    let (size, pc) := if lenBytes.length = lenSize then (leNat lenBytes, pc + lenSize) else (0, pc)
+    if lenBytes.length ≠ lenSize then .ok (pc + 1, none) else
+    let size := leNat lenBytes
+    let pc := pc + lenSize
     let data := slice script pc (pc + size)
     if data.length < size then .ok (pc + 1, none)
-    else if verifyMinimal && (sizedValues.contains size || size ≤ minSize) then .error nonMinimal
+    else if verifyMinimal && (sizedValues.contains size || size < minSize) then .error nonMinimal
     else .ok (pc + size, some data)
   | .unknownFmt _ => .error (.py "UnknownHandler")
 
